@@ -1045,6 +1045,27 @@ static void chain_tests(bool thorough)
     }
     chain_event("malloc-override-unconfined(" + std::to_string(rep) + ")", got, r);
   }
+#ifdef VM_GRANT_DENY
+  // granting access on a backend that offers the interface: refused (the library must fall back
+  // to a copy inside the sandbox) and accepted-by-the-backend-with-the-same-pointer is NOT offered
+  // by this variant, so whatever comes back must be null or inside the sandbox
+  for (int mode = 0; mode < 1; mode++) {
+    Sbx::grant_mode = 0;
+    static char app_buf[64] = "application buffer";
+    bool copied = false;
+    r = guarded([&] {
+      auto t = copy_memory_or_grant_access(*sb, app_buf, sizeof app_buf, false, copied);
+      got = t.UNSAFE_unverified();
+    });
+    chain_event("copy_memory_or_grant_access(refused)", got, r);
+    static double app_dbl[4] = { 1, 2, 3, 4 };
+    r = guarded([&] {
+      auto t = copy_memory_or_grant_access(*sb, app_dbl, (size_t)4, false, copied);
+      got = t.UNSAFE_unverified();
+    });
+    chain_event("copy_memory_or_grant_access(refused, double[4])", got, r);
+  }
+#endif
   {
     int app_obj = 0;
     r = guarded([&] {
